@@ -1,0 +1,28 @@
+//! Verification hooks.  Compiled only with `--cfg clarabel_verif`.
+//!
+//! Read-only accessors and `pub` wrappers around crate-private items, used by the
+//! external correspondence harness.  Nothing here changes solver behaviour.
+#![allow(non_snake_case)]
+#![allow(dead_code)]
+#![allow(clippy::all)]
+
+use crate::algebra::*;
+
+/// wrappers for crate-private scalar index utilities (algebra/scalarmath.rs)
+pub fn triangular_number(k: usize) -> usize {
+    crate::algebra::triangular_number(k)
+}
+pub fn triangular_index(k: usize) -> usize {
+    crate::algebra::triangular_index(k)
+}
+
+/// generic matrix-vector products, monomorphised at f64
+pub fn csc_gemv(A: &CscMatrix<f64>, y: &mut [f64], x: &[f64], a: f64, b: f64) {
+    A.gemv(y, x, a, b);
+}
+pub fn csc_gemv_t(A: &CscMatrix<f64>, y: &mut [f64], x: &[f64], a: f64, b: f64) {
+    A.t().gemv(y, x, a, b);
+}
+pub fn csc_symv(A: &CscMatrix<f64>, y: &mut [f64], x: &[f64], a: f64, b: f64) {
+    A.sym().symv(y, x, a, b);
+}
